@@ -662,6 +662,7 @@ func refAdmission(d *Dump, p string) (class string, replaced int) {
 func dumpJobsString(d *Dump) string {
 	var sb strings.Builder
 	for _, j := range d.Jobs {
+		j.Stages = "" // stage statuses live in the scheduler, outside the runner lock: not part of the runner's job state
 		fmt.Fprintf(&sb, "%+v\n", j)
 	}
 	ps := make([]string, 0)
